@@ -304,6 +304,9 @@ def _write_grid_vars(nc: Dataset, spec: dict[str, Any], G: dict[str, Any]) -> No
     if spec.get("vert", {}).get("write_Vtransform", True):
         v = nc.createVariable("Vtransform", "i4", ())
         v[...] = G["Vtransform"]
+    if spec.get("vert", {}).get("write_Vstretching", False):
+        v = nc.createVariable("Vstretching", "i4", ())
+        v[...] = spec["vert"].get("Vstretching", 1)
 
 
 def write_world(dirpath: Path | str, spec: dict[str, Any]) -> dict[str, Any]:
@@ -324,6 +327,9 @@ def write_world(dirpath: Path | str, spec: dict[str, Any]) -> dict[str, Any]:
     nfr = len(offsets)
     tsec = [float(o) for o in offsets]
     u, v = field_frames(spec.get("vel", {"kind": "zero"}), nfr, tsec, N, jmax, imax, G["zr"])
+    for n in spec.get("land_zero_frames", []):  # frames stored with zeros on land faces (plain model output); the others carry values there (filled files)
+        u[n] *= (G["mask"][:, :-1] * G["mask"][:, 1:])[None]
+        v[n] *= (G["mask"][:-1, :] * G["mask"][1:, :])[None]
     scal = {}
     for name, s in spec.get("scalars", {}).items():
         scal[name] = scalar_frames(s, nfr, tsec, N, jmax, imax, stag_w=s.get("w_levels", False))
@@ -340,7 +346,7 @@ def write_world(dirpath: Path | str, spec: dict[str, Any]) -> dict[str, Any]:
     per_file = spec.get("pack_per_file")
     for fi, cnt in enumerate(counts):
         pack = dict(pack_all, **per_file[fi % len(per_file)]) if per_file else pack_all
-        fname = d / f"{prefix}{fi:03d}.nc"
+        fname = d / (spec["file_names"][fi] if spec.get("file_names") else f"{prefix}{fi:03d}.nc")  # explicit names must sort in time order
         with Dataset(fname, "w", format="NETCDF4") as nc:
             if spec.get("grid_in_forcing", True):
                 _write_grid_vars(nc, spec, G)
